@@ -194,6 +194,17 @@ theorem mergeLoop_merge (C : Crypto) (fuel : Nat) (a b : Node) (rest nodes : Lis
         ((⟨it.sibling.parent.index, a.length + b.length, parentHash C a b⟩ : Node) :: nodes) it.sibling.parent := by
   simp [mergeLoop, h]
 
+/-- a node strictly above depth `k` whose span ends where `(m+1)` spans of depth `k` end exists only
+    when `m + 1` is even -/
+theorem carry_even (k d o m : Nat) (hd : k < d) (h : (o + 1) * 2 ^ d = (m + 1) * 2 ^ k) : (m + 1) % 2 = 0 := by
+  obtain ⟨j, rfl⟩ : ∃ j, d = k + (j + 1) := ⟨d - k - 1, by omega⟩
+  have e : (o + 1) * 2 ^ (k + (j + 1)) = ((o + 1) * (2 * 2 ^ j)) * 2 ^ k := by
+    rw [Nat.pow_add, pow_succ2]; ring
+  rw [e] at h
+  have := Nat.eq_of_mul_eq_mul_right (pow_pos' k) h
+  have e2 : (o + 1) * (2 * 2 ^ j) = 2 * ((o + 1) * 2 ^ j) := by ring
+  omega
+
 /-- Binary-counter step.  The newest root sits at (k, m) on top of the lifted stack of an `m`-leaf
     tree; the loop leaves the lifted stack of an `(m+1)`-leaf tree, adds exactly the merged parents
     (all reference nodes), and the iterator ends on the top root. -/
@@ -203,7 +214,8 @@ theorem mergeLoop_ref (C : Crypto) (bs : Array Bytes) (m : Nat) :
         mergeLoop C fuel (nodeAt C bs k m :: ((rootsStack m).map (liftN k)).map (fun p => nodeAt C bs p.1 p.2)) rn (iat k m)
           = (((rootsStack (m + 1)).map (liftN k)).map (fun p => nodeAt C bs p.1 p.2), added ++ rn, iat top.1 top.2)
         ∧ (∀ n ∈ added, ∃ d o, n = nodeAt C bs d o ∧ (o + 1) * 2 ^ d ≤ (m + 1) * 2 ^ k ∧ k < d)
-        ∧ ((rootsStack (m + 1)).map (liftN k)).head? = some top := by
+        ∧ ((rootsStack (m + 1)).map (liftN k)).head? = some top
+        ∧ (∀ d o, k < d → (o + 1) * 2 ^ d = (m + 1) * 2 ^ k → nodeAt C bs d o ∈ added) := by
   induction m using Nat.strongRecOn with
   | _ m ih =>
     intro k fuel rn hf
@@ -212,9 +224,12 @@ theorem mergeLoop_ref (C : Crypto) (bs : Array Bytes) (m : Nat) :
     · subst hm0
       have h1 : rootsStack 1 = [(0, 0)] := by
         rw [rootsStack_odd 1 (by decide)]; simp [rootsStack_zero]
-      refine ⟨[], (k, 0), ?_, by simp, ?_⟩
+      refine ⟨[], (k, 0), ?_, by simp, ?_, ?_⟩
       · simp [rootsStack_zero, h1, mergeLoop, liftN]
       · simp [h1, liftN]
+      · intro d o hd h
+        have := carry_even k d o 0 hd h
+        omega
     by_cases hev : m % 2 = 0
     · -- m even: the previous top root is deeper; nothing merges
       have e1 := rootsStack_even m hm0 hev
@@ -222,7 +237,7 @@ theorem mergeLoop_ref (C : Crypto) (bs : Array Bytes) (m : Nat) :
         rw [rootsStack_odd (m + 1) (by omega)]
         have : (m + 1) / 2 = m / 2 := by omega
         simp [this]
-      refine ⟨[], (k, m), ?_, by simp, ?_⟩
+      refine ⟨[], (k, m), ?_, by simp, ?_, ?_⟩
       · rw [e2, e1]
         simp only [List.map_cons, liftN, Nat.zero_add, List.nil_append]
         cases hl : (rootsStack (m / 2)).map lift with
@@ -252,6 +267,9 @@ theorem mergeLoop_ref (C : Crypto) (bs : Array Bytes) (m : Nat) :
           rw [mergeLoop_nomerge C fuel _ _ _ _ _ hne, hsib, iat_sibling_odd k (m + 1) (by omega)]
           simp
       · rw [e2]; simp [liftN]
+      · intro d o hd h
+        have := carry_even k d o m hd h
+        omega
     · -- m odd: merge with the left sibling (k, m-1) and carry into depth k+1
       have hodd : m % 2 = 1 := by omega
       have e1 := rootsStack_odd m hodd
@@ -260,9 +278,9 @@ theorem mergeLoop_ref (C : Crypto) (bs : Array Bytes) (m : Nat) :
       have hh : (m + 1) / 2 = m / 2 + 1 := by omega
       have hlen : (rootsStack (m / 2)).length < fuel := by
         rw [e1] at hf; simp at hf; omega
-      obtain ⟨added, top, hrec, hadd, htop⟩ := ih (m / 2) (by omega) (k + 1) fuel
+      obtain ⟨added, top, hrec, hadd, htop, hcomp⟩ := ih (m / 2) (by omega) (k + 1) fuel
         (nodeAt C bs (k + 1) (m / 2) :: rn) hlen
-      refine ⟨added ++ [nodeAt C bs (k + 1) (m / 2)], top, ?_, ?_, ?_⟩
+      refine ⟨added ++ [nodeAt C bs (k + 1) (m / 2)], top, ?_, ?_, ?_, ?_⟩
       · rw [e1]
         simp only [List.map_cons, liftN, Nat.zero_add]
         have hidx : (iat k m).sibling.index = (nodeAt C bs k (m - 1)).index := by
@@ -290,6 +308,20 @@ theorem mergeLoop_ref (C : Crypto) (bs : Array Bytes) (m : Nat) :
           rw [this]
           exact Nat.mul_le_mul_right _ (by omega)
       · rw [e2, hh, map_liftN_lift]; exact htop
+      · intro d o hd h
+        have hcarry : (m / 2 + 1) * 2 ^ (k + 1) = (m + 1) * 2 ^ k := by
+          rw [pow_succ2]
+          have : (m / 2 + 1) * (2 * 2 ^ k) = (2 * (m / 2) + 2) * 2 ^ k := by ring
+          rw [this]; congr 1; omega
+        by_cases hd1 : d = k + 1
+        · subst hd1
+          rw [← hcarry] at h
+          have ho := Nat.eq_of_mul_eq_mul_right (pow_pos' (k + 1)) h
+          have : o = m / 2 := by omega
+          subst this
+          simp
+        · have := hcomp d o (by omega) (by rw [hcarry]; exact h)
+          simp [this]
 
 end HC.RefProof
 
@@ -324,14 +356,15 @@ theorem roots_push (C : Crypto) (bs : Array Bytes) (b : Bytes) :
 theorem append_ref (C : Crypto) (bs : Array Bytes) (cs : Changeset) (b : Bytes) (h : RootsOK C bs cs) :
     RootsOK C (bs.push b) (Tree.append C cs b)
       ∧ ∃ added, (Tree.append C cs b).rnodes = added ++ cs.rnodes
-          ∧ ∀ n ∈ added, ∃ d o, n = nodeAt C (bs.push b) d o ∧ (o + 1) * 2 ^ d ≤ bs.size + 1 := by
+          ∧ (∀ n ∈ added, ∃ d o, n = nodeAt C (bs.push b) d o ∧ (o + 1) * 2 ^ d ≤ bs.size + 1)
+          ∧ (∀ d o, (o + 1) * 2 ^ d = bs.size + 1 → nodeAt C (bs.push b) d o ∈ added) := by
   obtain ⟨hlen, hroots, hbytes⟩ := h
   have hnew : Iter.new (cs.length * 2) = iat 0 bs.size := by rw [hlen, Nat.mul_comm]; exact new_even bs.size
   have hleaf := nodeAt_leaf_push C bs b
   have hfuel : (rootsStack bs.size).length < cs.roots.length + 1 := by
     have := congrArg List.length hroots
     simp at this; omega
-  obtain ⟨added, top, hm, hadd, _⟩ := mergeLoop_ref C (bs.push b) bs.size 0 (cs.roots.length + 1)
+  obtain ⟨added, top, hm, hadd, _, hcomp⟩ := mergeLoop_ref C (bs.push b) bs.size 0 (cs.roots.length + 1)
     (nodeAt C (bs.push b) 0 bs.size :: cs.rnodes) hfuel
   rw [liftN_zero, liftN_zero, roots_push C bs b, ← hroots] at hm
   have happ : Tree.append C cs b =
@@ -340,7 +373,7 @@ theorem append_ref (C : Crypto) (bs : Array Bytes) (cs : Changeset) (b : Bytes) 
   have hnode : (⟨cs.length * 2, b.length, C.leaf b⟩ : Node) = nodeAt C (bs.push b) 0 bs.size := by rw [hleaf, hlen]
   rw [happ]
   simp only [appendRoot, hnode, hnew, hm]
-  refine ⟨⟨?_, ?_, ?_⟩, added ++ [nodeAt C (bs.push b) 0 bs.size], ?_, ?_⟩
+  refine ⟨⟨?_, ?_, ?_⟩, added ++ [nodeAt C (bs.push b) 0 bs.size], ?_, ?_, ?_⟩
   · simp [iat, hlen]
   · simp
   · simp [hbytes, hleaf]
@@ -351,6 +384,14 @@ theorem append_ref (C : Crypto) (bs : Array Bytes) (cs : Changeset) (b : Bytes) 
     · obtain ⟨d, o, rfl, hb, _⟩ := hadd n hn
       exact ⟨d, o, rfl, by simpa using hb⟩
     · exact ⟨0, bs.size, rfl, by simp⟩
+  · intro d o h
+    cases d with
+    | zero =>
+      have : o = bs.size := by simpa using h
+      subst this; simp
+    | succ d =>
+      have := hcomp (d + 1) o (by omega) (by simpa using h)
+      simp [this]
 
 /-- the empty changeset -/
 theorem rootsOK_empty (C : Crypto) (fork : Nat) :
